@@ -76,6 +76,19 @@ if src:
 else:
     tc_switch = "false"
 
+# scheduling points at every xpath navigator step (switched on per scenario through idr.VerifNavStep)
+nav = os.path.join(repo, "idr/navigator.go")
+nav_steps = "false"
+if mode == "full" and os.path.exists(nav):
+    src = open(replace.get(nav, nav)).read()
+    new, k = re.subn(r"(func \(nav \*navigator\) (?:MoveToChild|MoveToNext|MoveToParent|MoveToNextAttribute|MoveToFirst|MoveToPrevious)\(\) bool \{)", r"\1\n\tverifNavStep()", src)
+    if k >= 3:
+        emit(nav, new)
+        notes.append("navigator-steps:%d" % k)
+        nav_steps = "true"
+    else:
+        notes.append("navigator-steps:NOT-FOUND")
+
 def add(relpath, text):
     emit(os.path.join(repo, relpath), text)
 
@@ -95,7 +108,19 @@ func VerifSetNodeID(v int64) { nodeID = v }
 
 // VerifNodePool exposes the pool object (a *vsync.Pool under the shim overlay).
 func VerifNodePool() interface{} { return &nodePool }
-""")
+
+// VerifNavStep, when set, is called at every xpath navigator move (overlay rewrite of navigator.go).
+var VerifNavStep func()
+
+// VerifNavStepsInstalled tells whether the overlay could install the navigator scheduling points.
+const VerifNavStepsInstalled = %s
+
+func verifNavStep() {
+	if f := VerifNavStep; f != nil {
+		f()
+	}
+}
+""" % nav_steps)
 add("extensions/omniv21/customfuncs/zz_verif_hooks.go", """//go:build verif
 
 package customfuncs
